@@ -59,7 +59,11 @@ where
     let mut len = 0;
 
     loop {
-        let src = reader.fill_buf()?;
+        let src = match reader.fill_buf() {
+            Ok(src) => src,
+            Err(ref e) if e.kind() == io::ErrorKind::Interrupted => continue,
+            Err(e) => return Err(e),
+        };
 
         if src.is_empty() || is_eol {
             break;
